@@ -1,9 +1,9 @@
 SPECIFICATION Spec
 CONSTANTS
- Fam = "plain"
- P1 = 4
+ Fam = "sensgen"
+ P1 = 0
  P2 = 0
- Dev = {}
+ Dev = {"LabelSkipFirst"}
 INVARIANT Shape
 INVARIANT Final
 INVARIANT RoundTrip
